@@ -24,17 +24,38 @@ def perms_subsets(nodes):
     return out
 
 
-def materialise(base, tree, nsmap, missing=()):
+def pdir(lay, d):
+    return lay[d] if lay else "p%d" % d
+
+
+def gen_layout(rng, n):
+    """where each package directory lives: flat (None), or spread over nested groups with directory names shared between
+    groups, so that one relative import string (`../p5`) means different packages for importers in different groups"""
+    if rng.random() < 0.4:
+        return None
+    groups = ["", "ga", "gb", "ga/gc"]
+    grp = {d: rng.choice(groups) for d in range(n)}
+    label = {d: d for d in range(n)}
+    for d in rng.sample(range(n), max(1, n // 3)):
+        others = [e for e in range(n) if grp[e] != grp[d]]
+        if others:
+            e = rng.choice(others)
+            if not any(x != d and grp[x] == grp[d] and label[x] == label[e] for x in range(n)):
+                label[d] = label[e]
+    return {d: os.path.join(grp[d], "p%d" % label[d]) for d in range(n)}
+
+
+def materialise(base, tree, nsmap, missing=(), lay=None):
     """tree: {dir: [imports]}, nsmap: {dir: ns}. Each package defines T<d> and uses every imported T."""
     for d, imps in tree.items():
         if d in missing:
             continue
-        p = os.path.join(base, "p%d" % d)
+        p = os.path.join(base, pdir(lay, d))
         os.makedirs(p)
         lines = ["namespace: N%d" % nsmap[d]]
         if imps:
             lines.append("imports:")
-            lines += ["  - ../p%d" % i for i in imps]
+            lines += ["  - " + os.path.relpath(os.path.join(base, pdir(lay, i)), p) for i in imps]
         if d == 0:
             lines += ["json:", "  outputDir: ../out"]
         open(os.path.join(p, "_package.yml"), "w").write("\n".join(lines) + "\n")
@@ -45,11 +66,16 @@ def materialise(base, tree, nsmap, missing=()):
         open(os.path.join(p, "m.yml"), "w").write("\n".join(m) + "\n")
 
 
-def classify(rc, out):
+def classify(rc, out, base=None, lay=None):
     if rc == 0:
         return 0, 0
-    m = re.search(r"p(\d+)/_package\.yml", out)
-    d = int(m.group(1)) if m else 0
+    if lay:
+        m = re.search(r"(/[^\s:'\"]+)/_package\.yml", out)
+        back = {os.path.normpath(os.path.join(base, v)): k for k, v in lay.items()}
+        d = back.get(os.path.normpath(m.group(1)), 0) if m else 0
+    else:
+        m = re.search(r"p(\d+)/_package\.yml", out)
+        d = int(m.group(1)) if m else 0
     if "import cycle detected" in out:
         return 1, d
     if "conflicts with" in out:
@@ -61,20 +87,20 @@ def classify(rc, out):
     return 9, d
 
 
-def run_case(ctx, idx, tree, nsmap, missing=()):
+def run_case(ctx, idx, tree, nsmap, missing=(), lay=None):
     base = os.path.join(ctx.scratch, "g%d" % idx)
-    materialise(base, tree, nsmap, missing)
+    materialise(base, tree, nsmap, missing, lay)
     import subprocess
     try:
-        rc, o, e = sh([ctx.yardl, "generate", "--verbose"], cwd=os.path.join(base, "p0"), timeout=20)
+        rc, o, e = sh([ctx.yardl, "generate", "--verbose"], cwd=os.path.join(base, pdir(lay, 0)), timeout=20)
     except subprocess.TimeoutExpired:
         shutil.rmtree(base, ignore_errors=True)
         return -999, 8, 0, [], [], "TIMEOUT after 20 s"
     out = o + e
-    kind, d = classify(rc, out)
+    kind, d = classify(rc, out, base, lay)
     order, parsed = [], []
     if rc == 0:
-        mj = json.load(open(os.path.join(base, "out", "model.json")))
+        mj = json.load(open(os.path.join(base, pdir(lay, 0), "..", "out", "model.json")))
         order = [int(n["name"][1:]) for n in mj["namespaces"]]
         parsed = re.findall(r"Parsed namespace N(\d+)", out)
     shutil.rmtree(base, ignore_errors=True)
@@ -116,7 +142,7 @@ def run(ctx):
         elif len(allg) > 4200:
             allg = rng.sample(allg, 4200)
         for g in allg:
-            cases.append(({i: list(g[i]) for i in nodes}, {i: i for i in nodes}, ()))
+            cases.append(({i: list(g[i]) for i in nodes}, {i: i for i in nodes}, (), gen_layout(rng, n) if n == 3 else None))
     # random larger graphs, chains near the limit, conflicts, missing
     for _ in range(60 if quick else 600):
         n = rng.choice([4, 5, 6, 9, 11, 12, 14])
@@ -144,19 +170,24 @@ def run(ctx):
         if kind == "conflict" and n >= 3:
             a, b = rng.sample(range(1, n), 2)
             nsmap[b] = nsmap[a]
+            if rng.random() < 0.7:      # usually both claimants are reachable (directly or through another package)
+                for x in (a, b):
+                    src = rng.choice([0] + [i for i in range(1, min(a, b)) if i not in (a, b)])
+                    if x not in tree[src]:
+                        tree[src].insert(rng.randrange(len(tree[src]) + 1), x)
         if kind == "missing":
             missing = (rng.randrange(1, n),)
-        cases.append((tree, nsmap, missing))
+        cases.append((tree, nsmap, missing, gen_layout(rng, n)))
     # order independence, observed directly: every random case is paired with a copy whose import lists are permuted
     n_base = len(cases)
     perm_of = {}
     for k in range(n_base):
-        tree, nsmap, missing = cases[k]
+        tree, nsmap, missing, lay = cases[k]
         if any(len(v) > 1 for v in tree.values()):
             t2 = {d: rng.sample(v, len(v)) for d, v in tree.items()}
             if t2 != tree:
                 perm_of[len(cases)] = k
-                cases.append((t2, nsmap, missing))
+                cases.append((t2, nsmap, missing, lay))
     # the witness of theorem C18_order_refuted: package 11 imported directly and at the end of a 9-deep chain
     def t3(first, second):
         t = {0: [first, second], 11: []}
@@ -164,8 +195,8 @@ def run(ctx):
             t[i] = [11] if i == 9 else [i + 1]
         return t
     w1, w2 = len(cases), len(cases) + 1
-    cases.append((t3(11, 1), {i: i for i in range(12)}, ()))
-    cases.append((t3(1, 11), {i: i for i in range(12)}, ()))
+    cases.append((t3(11, 1), {i: i for i in range(12)}, (), None))
+    cases.append((t3(1, 11), {i: i for i in range(12)}, (), None))
     perm_of[w2] = w1
     results = []
     with ThreadPoolExecutor(max_workers=12) as ex:
@@ -179,17 +210,20 @@ def run(ctx):
                        "the same import graph is accepted or rejected depending on the order of an import list "
                        "(verdicts %d / %d)" % (r1[1], r2[1]),
                        {"imports_a": cases[k1][0], "imports_b": cases[k2][0], "namespaces": cases[k1][1],
-                        "verdict_a": r1[1], "verdict_b": r2[1]})
+                        "verdict_a": r1[1], "verdict_b": r2[1], "layout": cases[k1][3]})
     items = []
-    for (tree, nsmap, missing), (rc, kind, d, order, parsed, out) in zip(cases, results):
+    for (tree, nsmap, missing, lay), (rc, kind, d, order, parsed, out) in zip(cases, results):
+        ctx.count("directory_layout", "flat" if not lay else ("nested, a directory name shared between groups"
+                                                              if len(set(os.path.basename(v) for v in lay.values())) < len(lay) else "nested"))
         ctx.count("verdict", {0: "ok", 1: "cycle", 2: "conflict", 3: "depth", 4: "missing"}.get(kind, "other"))
         ctx.count("packages", str(len(tree)))
-        ctx.case((sorted(tree.items()), sorted(nsmap.items()), missing), nontrivial=any(tree.values()),
-                 sample={"imports": tree, "namespaces": nsmap, "missing": list(missing), "exit": rc,
+        ctx.case((sorted(tree.items()), sorted(nsmap.items()), missing, tuple(sorted(lay.items())) if lay else None),
+                 nontrivial=any(tree.values()),
+                 sample={"imports": tree, "namespaces": nsmap, "missing": list(missing), "layout": lay, "exit": rc,
                          "verdict": kind, "emitted_order": order})
         if rc == -999:
             ctx.report("load-does-not-terminate", "yardl did not terminate within 20 s on an import graph",
-                       {"imports": tree, "namespaces": nsmap, "missing": list(missing)})
+                       {"imports": tree, "namespaces": nsmap, "missing": list(missing), "layout": lay})
             continue
         if rc == 0:
             # model-free oracle: exactly the reachable packages, each once, every package after its imports
@@ -204,16 +238,16 @@ def run(ctx):
             oktopo = okset and all(pos[nsmap[j]] < pos[nsmap[i]] for i in reach for j in tree[i] if j != i)
             if not okset:
                 ctx.report("loaded-set-wrong", "the namespaces loaded (%s) are not exactly the reachable packages, once each" % order,
-                           {"imports": tree, "namespaces": nsmap, "yardl_order": order})
+                           {"imports": tree, "namespaces": nsmap, "yardl_order": order, "layout": lay})
             elif not oktopo:
                 ctx.report("dependency-after-dependent", "a package was emitted before a package it imports (order %s)" % order,
-                           {"imports": tree, "namespaces": nsmap, "yardl_order": order})
+                           {"imports": tree, "namespaces": nsmap, "yardl_order": order, "layout": lay})
         if rc not in (0, 1):
             ctx.report("cli-crash", "yardl exited with status %d on an import graph" % rc,
-                       {"imports": tree, "namespaces": nsmap, "missing": list(missing), "output": out[-1500:]})
+                       {"imports": tree, "namespaces": nsmap, "missing": list(missing), "output": out[-1500:], "layout": lay})
         if kind == 9:
             ctx.report("unclassified-error", "yardl reported an error that is none of cycle/conflict/depth/missing: " + out[-200:],
-                       {"imports": tree, "namespaces": nsmap, "missing": list(missing), "output": out[-1500:]})
+                       {"imports": tree, "namespaces": nsmap, "missing": list(missing), "output": out[-1500:], "layout": lay})
         if rc == 0 and len(parsed) != len(set(parsed)):
             ctx.report("parsed-twice", "a namespace was parsed more than once", {"imports": tree, "parsed": parsed})
         items.append(coq_case(tree, nsmap, missing, kind, d, order))
@@ -229,12 +263,12 @@ def run(ctx):
         res = list(ex.map(ev, enumerate(shards)))
     for ix, mm in res:
         for k in mm[:3]:
-            tree, nsmap, missing = cases[ix * 300 + k]
+            tree, nsmap, missing, lay = cases[ix * 300 + k]
             rc, kind, d, order, parsed, out = results[ix * 300 + k]
             # property-level judgement without the model: is the verdict right for this graph?
             ctx.report("model-differs", "Model.Packages.load and yardl disagree on an import graph (yardl: exit %d, verdict %d, "
                        "dir %d, order %s)" % (rc, kind, d, order),
-                       {"imports": tree, "namespaces": nsmap, "missing": list(missing), "yardl_exit": rc, "yardl_verdict": kind,
+                       {"imports": tree, "namespaces": nsmap, "missing": list(missing), "layout": lay, "yardl_exit": rc, "yardl_verdict": kind,
                         "yardl_order": order, "output": out[-800:], "broken": "correspondence Model.Packages.load vs collectPackages"},
                        no_input=True)
 
@@ -244,4 +278,5 @@ def replay(ctx, path):
     tree = {int(k): v for k, v in r["imports"].items()}
     nsmap = {int(k): v for k, v in r["namespaces"].items()}
     ctx.build_repo(need_hook=True)
-    print(run_case(ctx, 0, tree, nsmap, tuple(r.get("missing", ())))[:5])
+    lay = {int(k): v for k, v in r["layout"].items()} if r.get("layout") else None
+    print(run_case(ctx, 0, tree, nsmap, tuple(r.get("missing", ())), lay)[:5])
